@@ -4,8 +4,8 @@ from ._generic import make, STD_TRUST
 globals().update(
     make(
         pid="C06",
-        props=["JaqalProofs/Props/C06.lean"],
-        targets=["JaqalProofs.Props.C06"],
+        props=["JaqalProofs/Props/C06.lean", "JaqalProofs/Props/ParsedC06.lean"],
+        targets=["JaqalProofs.Props.C06", "JaqalProofs.Props.ParsedC06"],
         diffs=[
             # the correspondence of both scripts is kept in full; of their direct oracles only those that state C06
             # (the others state C05 / C03 / C13 and are judged by those checks — in particular C05's open known finding
